@@ -1,5 +1,8 @@
 from contracts.geometry import CONTRACTS as _C
-CONTRACTS = list(_C)
+from contracts.writer import StoredEditsNative
+from contracts.h5graph import WriteArrayAttribute
+# part labels are stored as segments: the writer derives them when the labels are assigned (also on a stored curve)
+CONTRACTS = list(_C) + [WriteArrayAttribute, StoredEditsNative]
 
 MANIFEST = {
     "category": "proof",
